@@ -48,7 +48,7 @@ def spec_gap(kind, s):
     if kind == "SC":
         return "C11-cue-single-linebreak: cue singleQuoted for a '? ' / '?' string containing a line break"
     if kind == "P":
-        return "C11-dots-root: plain style for '...' (document end marker) in column 0"
+        return "unclassified: a plain scalar chosen by the encoder does not read back (C11-dots-root is fixed: strings starting with '...' are double quoted)"
     return "unclassified"
 
 
@@ -99,7 +99,7 @@ def run(ctx):
     known = {}
     stats = {"probe_roundtrip_ok": 0, "probe_roundtrip_known_bad": 0, "probe_emit_exact": 0, "probe_style_agree": 0,
              "probe_unmodelled_layout": 0, "doc_ok": 0, "doc_known_bad": 0, "json_same": 0, "json_known_tab": 0,
-             "json_rejected_by_json_decoder": 0, "fixed_known_cases": 0, "oracle_hypotheses_checked": 0}
+             "json_rejected_by_json_decoder": 0, "fixed_known_cases": 0, "oracle_hypotheses_checked": 0, "bytes_empty_ok": 0}
 
     def violation(kind, c, i, m, what):
         nonlocal mism
@@ -174,19 +174,14 @@ def run(ctx):
             if len(samples) < 4 and kinds["P"] % 997 == 5:
                 samples.append({"case": c[:300], "impl": i[:200], "model": m[:300]})
         elif k == "B":
-            followed = c.endswith("F")
-            rt = i == "rt=1"
-            if rt and not followed:
-                pass
-            elif not rt and followed:
-                key = "C11-empty-bytes: encoder: empty bytes value is written as '!!binary ' with no content; followed by another node the tag attaches to that node and decoding fails (encodeScalar)"
-                if key not in known:
-                    known[key] = {"count": 0, "witness": {"cue": "{a: '', b: 1}", "yaml": "a: !!binary \nb: 1\n"}}
-                known[key]["count"] += 1
-            elif rt and followed:
-                stats["fixed_known_cases"] += 1
+            # an empty bytes value is written as `!!binary ""` and reads back in every position
+            # (C11-empty-bytes, fixed)
+            if i == "rt=1":
+                stats["bytes_empty_ok"] += 1
             else:
-                violation("round-trip-fails", c, i, m, "an empty bytes value as the last node of a document does not round-trip")
+                violation("round-trip-fails", c, i, m,
+                          "an empty bytes value in this position does not survive yaml.Encode / yaml.Extract "
+                          "(cue: {a: '', b: 1})")
         elif k == "D":
             if new and c.count("=") + c.count(",") >= 6:
                 nontrivial += 1
